@@ -373,6 +373,7 @@ func skipString(src string, pos int) (ret int, ep int) {
 	sp += 1
 
 	ep = -1
+	closed := false
 	for sp < se {
 		c := *(*byte)(unsafe.Pointer(sp))
 		if c == '\\' {
@@ -382,13 +383,19 @@ func skipString(src string, pos int) (ret int, ep int) {
 			sp += 2
 			continue
 		}
+		if c < 0x20 {
+			// control characters must be escaped inside a JSON string
+			return -int(types.ERR_INVALID_CHAR), -1
+		}
 		sp += 1
 		if c == '"' {
+			closed = true
 			break
 		}
 	}
 
-	if sp > se {
+	// the input may end inside the string (also in the middle of an escape)
+	if !closed || sp > se {
 		return -int(types.ERR_EOF), -1
 	}
 
